@@ -42,10 +42,45 @@ func tbState(tb *bitmap.TailBitmap) J {
 
 const tbMaxOnes = 2048
 
+// expandTB turns the macro-steps of TLC-generated behaviours (Fill, Probe) into plain calls.
+func expandTB(ops []In) []In {
+	var out []In
+	for _, op := range ops {
+		switch op.S("k") {
+		case "Fill":
+			base, hole := op.I("base"), op.I("hole")
+			for b := int64(0); b < 64; b++ {
+				if b != hole {
+					out = append(out, In{J{"k": "Set", "idx": base + b}})
+				}
+			}
+			if hole >= 0 {
+				out = append(out, In{J{"k": "ProbeIf", "j": base + hole}})
+			}
+		case "Probe":
+			j := op.I("j")
+			out = append(out, In{J{"k": "ProbeIf", "j": j}}, In{J{"k": "ProbeIf", "j": j + 1}}, In{J{"k": "ProbeIf", "j": j - 64}})
+		default:
+			out = append(out, op)
+		}
+	}
+	return out
+}
+
 func execTB(in In, em *Emitter) {
 	var tb *bitmap.TailBitmap
-	for _, op := range in.L("ops") {
+	for _, op := range expandTB(in.L("ops")) {
 		k := op.S("k")
+		if k == "ProbeIf" {
+			// a probe requested by the generator, issued only inside the domain of Get1 (below the end of the
+			// stored words); the trace specification checks that domain again on the logged event
+			j := op.I("j")
+			if tb == nil || j < 0 || j >= tb.Offset+int64(64*len(tb.Words)) {
+				continue
+			}
+			k = "Get1"
+			op = In{J{"k": "Get1", "j": j}}
+		}
 		ev := J{}
 		var abn string
 		switch k {
@@ -233,6 +268,99 @@ func genC15(g *Gen) {
 				t.done()
 			}
 		}
+	}
+	// 1b. layout histories: a run of 8..30 words is given a fullness layout (full / partial / empty, mostly
+	// full), all of it is set except one bit of word 0, in a seeded word order; completing word 0 then makes one
+	// Compact walk a long run of full words with partial and full words behind it; afterwards the bitmap grows
+	// by several words at once and the holes are probed and closed one by one.
+	for h := 0; h < g.N(60, 2500); h++ {
+		o := offsets[r.Intn(3)]
+		t := newTBGen(g, o)
+		nwords := 8 + r.Intn(23)
+		kind := make([]int, nwords) // 0 full, 1 partial, 2 empty
+		pFull := []float64{0.6, 0.8, 0.9}[r.Intn(3)]
+		for w := range kind {
+			x := r.Float64()
+			switch {
+			case x < pFull:
+				kind[w] = 0
+			case x < pFull+(1-pFull)*0.7:
+				kind[w] = 1
+			default:
+				kind[w] = 2
+			}
+		}
+		kind[0] = 0
+		if r.Intn(2) == 0 { // a long leading run of full words, then a partial one, then full ones again
+			run := 8 + r.Intn(nwords-7)
+			for w := 0; w < nwords; w++ {
+				if w < run {
+					kind[w] = 0
+				} else if w == run {
+					kind[w] = 1
+				} else if r.Intn(4) != 0 {
+					kind[w] = 0
+				}
+			}
+		}
+		order := r.Perm(nwords)
+		hole0 := int64(r.Intn(64))
+		var holes []int64
+		for _, w := range order {
+			switch kind[w] {
+			case 2:
+				continue
+			case 1:
+				miss := map[int]bool{r.Intn(64): true}
+				if r.Intn(2) == 0 {
+					miss[r.Intn(64)] = true
+				}
+				for b := 0; b < 64; b++ {
+					if miss[b] {
+						holes = append(holes, o+int64(w*64+b))
+					} else {
+						t.Set(o + int64(w*64+b))
+					}
+				}
+			default:
+				for b := int64(0); b < 64; b++ {
+					if w == 0 && b == hole0 {
+						continue
+					}
+					t.Set(o + int64(w*64) + b)
+				}
+			}
+			if r.Intn(6) == 0 {
+				t.probes(2)
+			}
+		}
+		t.probes(3)
+		t.Set(o + hole0) // Compact walks the run now
+		t.probes(4)
+		for _, hidx := range holes {
+			t.probe(hidx)
+		}
+		// grow by several words at once, look at what lies between
+		far := t.hi + int64(64*(2+r.Intn(4))) + int64(r.Intn(64))
+		t.Set(far)
+		for w := int64(1); w <= 5; w++ {
+			t.probe(far - 64*w)
+			t.probe(far - 64*w + int64(r.Intn(64)))
+		}
+		t.probes(6)
+		if r.Intn(2) == 0 {
+			t.Compact()
+		}
+		r.Shuffle(len(holes), func(i, j int) { holes[i], holes[j] = holes[j], holes[i] })
+		for _, hidx := range holes { // close the holes: more multi-word compactions
+			t.Set(hidx)
+			t.probes(1)
+			if r.Intn(3) == 0 {
+				t.Set(t.hi + int64(64*(2+r.Intn(3))))
+			}
+		}
+		t.probes(8)
+		t.done()
 	}
 	// 2. random histories.
 	for h := 0; h < g.N(200, 6000); h++ {
